@@ -436,47 +436,89 @@ Proof.
   intros Hm. unfold register. destruct (Nat.eqb_spec m n); [congruence|]. now rewrite andb_false_r.
 Qed.
 
+(* one registration, at class level: the table after `register` is the table with one entry overwritten *)
+Definition reg1 (mt : mtab) (target : name) (n : fname) (v : nat) : mtab :=
+  fun k m => if Nat.eqb k target && Nat.eqb m n then MHas v else mt k m.
+
+Lemma reg1_hit mt target n v : reg1 mt target n v target n = MHas v.
+Proof. unfold reg1. now rewrite !Nat.eqb_refl. Qed.
+Lemma reg1_miss mt target n v cl : cl <> target -> reg1 mt target n v cl n = mt cl n.
+Proof. intros Hn. unfold reg1. destruct (Nat.eqb_spec cl target); [contradiction|reflexivity]. Qed.
+Lemma reg1_other mt target n v cl m : m <> n -> reg1 mt target n v cl m = mt cl m.
+Proof. intros Hm. unfold reg1. destruct (Nat.eqb_spec m n); [congruence|]. now rewrite andb_false_r. Qed.
+
+(* ANY depth: if the class the method was registered on lies on the chain the look-up walks, the look-up finds it *)
+Lemma lookup_chain mt target n v : forall fuel cl,
+  on_chain fuel H mt cl n target -> lookup_d fuel H (reg1 mt target n v) cl n = Some v.
+Proof.
+  induction fuel as [|f IH]; intros cl Hc.
+  - destruct Hc as [->|[]]. simpl. now rewrite reg1_hit.
+  - destruct (Nat.eq_dec cl target) as [->|Hn]; [simpl; now rewrite reg1_hit|].
+    destruct Hc as [->|[Hi Hp]]; [contradiction|]. simpl. rewrite reg1_miss by exact Hn. rewrite Hi.
+    destruct (cparent H cl) as [p|]; [|contradiction]. now apply IH.
+Qed.
+
+(* ... and if it does not, the look-up is what it was *)
+Lemma lookup_off_chain mt target n v : forall fuel cl,
+  ~ on_chain fuel H mt cl n target -> lookup_d fuel H (reg1 mt target n v) cl n = lookup_d fuel H mt cl n.
+Proof.
+  induction fuel as [|f IH]; intros cl Hc.
+  - assert (Hn : cl <> target) by (intros ->; apply Hc; now left). simpl. now rewrite reg1_miss.
+  - assert (Hn : cl <> target) by (intros ->; apply Hc; now left). simpl. rewrite reg1_miss by exact Hn.
+    destruct (mt cl n) eqn:E; try reflexivity.
+    destruct (cparent H cl) as [p|] eqn:P; [|reflexivity]. apply IH. intros Hp. apply Hc. right. simpl. rewrite P. split; assumption.
+Qed.
+
+Lemma lookup_other_name mt target n v m : m <> n -> forall fuel cl,
+  lookup_d fuel H (reg1 mt target n v) cl m = lookup_d fuel H mt cl m.
+Proof.
+  intros Hm. induction fuel as [|f IH]; intros cl; simpl; rewrite reg1_other by exact Hm; [reflexivity|].
+  destruct (mt cl m); try reflexivity. destruct (cparent H cl); [apply IH|reflexivity].
+Qed.
+
+Lemma register_reg1 s mt u n v : register c s mt u n v = reg1 mt (name_of c (cur s u)) n v.
+Proof. reflexivity. Qed.
+
 (* a method registered by thread u is what the closure runs for EVERY thread whose current backend is of the class of
-   u's backend - at once, whatever thread-local selections are in force *)
+   u's backend, or of a subclass - at ANY depth - that reaches that class through classes that do not define the name
+   themselves: at once, whatever thread-local selections are in force *)
+Theorem registered_inherited_deep s mt u n v t :
+  on_chain (cdepth H) H mt (name_of c (cur s t)) n (name_of c (cur s u)) ->
+  which H c s (register c s mt u n v) t n = Some (cur s t, v).
+Proof.
+  intros Hc. unfold which, lookup. rewrite register_reg1, lookup_chain by exact Hc. reflexivity.
+Qed.
+
 Theorem registered_same_class s mt u n v t :
   name_of c (cur s t) = name_of c (cur s u) ->
   which H c s (register c s mt u n v) t n = Some (cur s t, v).
 Proof.
-  intros E. unfold which, lookup, register. rewrite E, !Nat.eqb_refl. reflexivity.
+  intros E. apply registered_inherited_deep. destruct (cdepth H); now left.
 Qed.
 
-(* ... and for every thread on a backend of a SUBCLASS that does not define the name itself *)
+(* the one-level case *)
 Theorem registered_inherited s mt u n v t :
-  name_of c (cur s t) <> name_of c (cur s u) ->
+  cdepth H <> 0 ->
   mt (name_of c (cur s t)) n = MInherit -> cparent H (name_of c (cur s t)) = Some (name_of c (cur s u)) ->
   which H c s (register c s mt u n v) t n = Some (cur s t, v).
 Proof.
-  intros Hne Hi Hp. unfold which, lookup, register.
-  destruct (Nat.eqb_spec (name_of c (cur s t)) (name_of c (cur s u))); [contradiction|]. simpl.
-  rewrite Hi, Hp, !Nat.eqb_refl. reflexivity.
+  intros Hd Hi Hp. apply registered_inherited_deep. destruct (cdepth H) as [|f]; [contradiction|].
+  right. simpl. rewrite Hp. split; [exact Hi|]. destruct f; now left.
 Qed.
 
-(* threads on a backend of an unrelated class, or of a class with a definition of its own, are not affected; nor is any
-   other name for anybody *)
+(* threads whose look-up does not pass through the class of u's backend - an unrelated class, or a class (or an
+   intermediate ancestor) with a definition of its own - are not affected; nor is any other name for anybody *)
 Theorem registered_elsewhere_unchanged s mt u n v t :
-  name_of c (cur s t) <> name_of c (cur s u) ->
-  (mt (name_of c (cur s t)) n <> MInherit \/ cparent H (name_of c (cur s t)) <> Some (name_of c (cur s u))) ->
+  ~ on_chain (cdepth H) H mt (name_of c (cur s t)) n (name_of c (cur s u)) ->
   which H c s (register c s mt u n v) t n = which H c s mt t n.
 Proof.
-  intros Hne Hor. unfold which, lookup, register. f_equal.
-  destruct (Nat.eqb_spec (name_of c (cur s t)) (name_of c (cur s u))); [contradiction|]. simpl.
-  destruct (mt (name_of c (cur s t)) n) eqn:E; try reflexivity.
-  destruct (cparent H (name_of c (cur s t))) as [p|] eqn:P; [|reflexivity].
-  destruct (Nat.eqb_spec p (name_of c (cur s u))) as [->|]; [|reflexivity].
-  destruct Hor as [X|X]; congruence.
+  intros Hc. unfold which, lookup. rewrite register_reg1, lookup_off_chain by exact Hc. reflexivity.
 Qed.
 
 Theorem registered_other_name s mt u n v t m : m <> n ->
   which H c s (register c s mt u n v) t m = which H c s mt t m.
 Proof.
-  intros Hm. unfold which, lookup. rewrite register_other_name; [|assumption].
-  destruct (mt (name_of c (cur s t)) m); try reflexivity.
-  destruct (cparent H (name_of c (cur s t))); [|reflexivity]. now rewrite register_other_name.
+  intros Hm. unfold which, lookup. rewrite register_reg1, lookup_other_name by exact Hm. reflexivity.
 Qed.
 
 (* a backend whose class provides nothing under the name: the dispatched call raises AttributeError *)
